@@ -54,6 +54,25 @@ def main(argv=None) -> int:
         return 2
 
 
+def impl_exception_violation(e: BaseException):
+    """Violation for an exception raised from code under core.REPO (innermost frame), else None."""
+    tb = traceback.extract_tb(e.__traceback__)
+    if not tb:
+        return None
+    repo = str(core.REPO)
+    inner = tb[-1]
+    in_repo = [f for f in tb if f.filename.startswith(repo + "/")]
+    if not in_repo or not (inner.filename.startswith(repo + "/") or "site-packages" in inner.filename
+                           or "/lib/python" in inner.filename):
+        return None
+    site = in_repo[-1]
+    rel = site.filename[len(repo) + 1:]
+    return Violation(f"impl-exception:{type(e).__name__}:{rel}:{site.name}",
+                     f"the implementation raised {type(e).__name__} on an input the harness built as valid: {e}"[:300],
+                     {"op": "exception", "exception": repr(e)[:500], "site": f"{rel}:{site.lineno} in {site.name}",
+                      "traceback": traceback.format_exception(type(e), e, e.__traceback__)[-12:]})
+
+
 def decide(ctx: Ctx, mod, a, import_error) -> int:
     prop = ctx.prop
     lean = None
@@ -66,13 +85,24 @@ def decide(ctx: Ctx, mod, a, import_error) -> int:
                                     {"op": "import", "error": repr(import_error)}))
         dis = []
     else:
-        if hasattr(mod, "prepare"):
-            mod.prepare(ctx)
-        dis = core.correspond(ctx, mod.correspondence(ctx)) if hasattr(mod, "correspondence") else []
-        if hasattr(mod, "custom_correspondence"):
-            dis = dis + list(mod.custom_correspondence(ctx))
-            ctx.disagreements = dis
-        violations.extend(mod.oracle(ctx))
+        dis = []
+        try:
+            if hasattr(mod, "prepare"):
+                mod.prepare(ctx)
+            dis = core.correspond(ctx, mod.correspondence(ctx)) if hasattr(mod, "correspondence") else []
+            if hasattr(mod, "custom_correspondence"):
+                dis = dis + list(mod.custom_correspondence(ctx))
+                ctx.disagreements = dis
+            violations.extend(mod.oracle(ctx))
+        except ToolFailure:
+            raise
+        except Exception as e:  # noqa: BLE001
+            # An exception that escapes from inside the implementation on an input the harness built as valid
+            # is the implementation failing, not the tool: report it with the traceback as the replay.
+            v = impl_exception_violation(e)
+            if v is None:
+                raise
+            violations.append(v)
     broken = []
     if lean and lean["failing"]:
         broken.append("lean: " + ", ".join(lean["failing"]))
